@@ -306,7 +306,7 @@ def mutate_text(rng, t: str) -> str:
         elif k == 1:
             t = t[:i] + t[i + rng.range(1, 3):]
         elif k == 2:
-            t = t[:i] + rng.choice(["\"", "\\", "(", ")", ";", " ", "\n", "0", "9", "-", ".", "\x00", "ÿ"]) + t[i + 1:]
+            t = t[:i] + rng.choice(["\"", "\\", "(", ")", ";", " ", "\n", "0", "9", "-", ".", "\x00", "ÿ", "\r", "\t", "\x7f", "\x0b", "\\010", "\\000", "\\255", "\\256", "$", "@"]) + t[i + 1:]
         elif k == 3:
             parts = t.split(" ")
             j = rng.below(len(parts)); parts[j] = rng.choice(TOK); t = " ".join(parts)
@@ -1011,6 +1011,18 @@ def generate(ctx: Ctx, scale: int, rng):
         ctx.case(("msg-big", w))
         eval_case(ctx, c)
         ctx.count("msg.big")
+    for rdlen in (65535, 65534, 65279):
+        # one record with the largest RDATA a message can carry
+        import struct as _st
+        body = b"".join(b"\xff" + b"z" * 255 for _ in range(rdlen // 256)) 
+        body += bytes([rdlen - len(body) - 1]) + b"y" * (rdlen - len(body) - 1) if rdlen - len(body) >= 1 else b""
+        w = _st.pack("!HHHHHH", 7, 0x8400, 0, 1, 0, 0) + b"\x01a\x00" + _st.pack("!HHIH", 16, 1, 300, len(body)) + body
+        c = {"kind": "msg", "wire": w.hex(), "opts": {}}
+        ctx.case(("msg-maxrdata", rdlen))
+        eval_case(ctx, c)
+        c = {"kind": "rdata.wire", "rdclass": 1, "rdtype": 16, "wire": body.hex(), "origin": 0}
+        ctx.case(("rw-maxrdata", rdlen))
+        eval_case(ctx, c)
     for _ in range(n(2500)):
         w = gen_parser_wire(rng)
         lib = rng.chance(1, 2)
